@@ -9,79 +9,15 @@
   `Variant.lateExport = false` is the order shipped before it (state exported first, then four steps
   that may still throw). checks/C40.py establishes by exact correspondence which one the tree has.
 -/
-import TfelVerif.C39.Lemmas
+import TfelVerif.C40.Lemmas
 
 set_option linter.unusedSimpArgs false
 set_option linter.unusedSectionVars false
 
 namespace TfelVerif.C40.Props
-open TfelVerif.C39
+open TfelVerif.C39 TfelVerif.C40
 
 variable {α : Type} [LT α] [DecidableRel (fun a b : α => a < b)] [Sub α] [Neg α] [OfScientific α]
-
-/-- an event that is not a store to `s1.{thermodynamic_forces, internal_state_variables,
-stored_energy, dissipated_energy}` -/
-def NotS1 : Event α → Prop
-  | .write o => o.isS1 = false
-  | _ => True
-
-/-- an event that is not a store to any output buffer -/
-def NotWrite : Event α → Prop
-  | .write _ => False
-  | _ => True
-
-/-- no store to the output state so far -/
-abbrev NoS1 (st : St α) : Prop := AllEv NotS1 st
-
-/-- no store to any output buffer so far -/
-abbrev NoWrite (st : St α) : Prop := AllEv NotWrite st
-
-
-/-- no run of `pre` (everything up to a successful `computeAPosterioriTimeStepScalingFactor`, and the
-whole prediction branch) stores anything in `s1` — in every variant -/
-theorem pre_noS1 (v : Variant) (s : Script α) (st : St α) (h : NoS1 st) :
-    (pre v s st).Sat (always NoS1) :=
-  pre_all NotS1 v s st (fun e he => by
-    cases e <;> simp_all [PreEv, NotS1]
-    rcases he with ⟨he | he, _⟩ <;> simp [he, Out.isS1]) h
-
-/-- repaired order: whatever way the tail ends *other than falling through*, nothing was stored in `s1` -/
-theorem tailLate_spec (s : Script α) (ke : α) (st : St α) (h : NoS1 st) :
-    (tailLate s ke st).Sat ⟨fun _ => True, fun _ => NoS1, fun _ => NoS1⟩ := by
-  unfold tailLate
-  apply R.bind_sat NoS1
-  · exact stepEnergyCompute_all NotS1 _ _ _ _ st h (by simp [NotS1])
-  · intro st h
-    apply R.bind_sat NoS1
-    · exact stepEnergyCompute_all NotS1 _ _ _ _ st h (by simp [NotS1])
-    · intro st h
-      apply R.bind_sat NoS1
-      · split
-        · exact stepSosCompute_all NotS1 s true st h (by simp [NotS1])
-        · simpa [always, AllEv, or_imp] using h
-      · intro st h
-        apply R.bind_sat NoS1
-        · split
-          · exact stepExportTO_all NotS1 s .k st h (by simp [NotS1]) (by simp [NotS1, Out.isS1])
-          · simpa [always, AllEv, or_imp] using h
-        · intro st h
-          simp
-
-/-- the body of the `try` block in the repaired order: a `return` or an exception leaves `s1` untouched -/
-theorem body_late_spec (p : Bool) (s : Script α) (st : St α) (h : NoS1 st) :
-    (body ⟨true, p⟩ s st).Sat ⟨fun _ => True, fun _ => NoS1, fun _ => NoS1⟩ := by
-  unfold body
-  apply R.bind_sat NoS1
-  · exact R.sat_mono (pre_noS1 _ s st h) (by simp [always]) (by simp [always]) (by simp [always])
-  · intro st h
-    simpa using tailLate_spec s _ st h
-
-theorem written_noS1 (r : Result α) (h : NoS1 r.st) : ∀ o ∈ r.written, o.isS1 = false := by
-  intro o ho
-  simp only [Result.written, List.mem_filterMap] at ho
-  obtain ⟨e, he, heo⟩ := ho
-  have := h e he
-  cases e <;> simp_all [Event.isWrite, NotS1]
 
 /-- **C40, full strength, repaired order** (patches/C40-integrate.diff): for every script — failure or
 exception injected at any stage, any traits, any `K[0]` — a call that returns `-1` has stored nothing in
@@ -102,6 +38,34 @@ theorem failed_integration_leaves_s1_untouched (p : Bool) (s : Script α)
     simp only [R.sat_thr] at hb
     simp_all [NoS1, AllEv, NotS1]
 
+/-- repaired order, integration requests: a call that returns `-1` has stored nothing at all — neither in
+`s1`, nor in `K`, nor in `speed_of_sound` (only `rdt` and the error message are set) -/
+theorem failed_integration_stores_nothing (p : Bool) (s : Script α)
+    (hi : isPrediction (effK0 s.k0) = false) (h : (integrate ⟨true, p⟩ s).ret = -1) :
+    (integrate ⟨true, p⟩ s).written = [] := by
+  have hb : (body ⟨true, p⟩ s (st0 s)).Sat ⟨fun _ => True, fun _ => NoWrite, fun _ => NoWrite⟩ := by
+    unfold body
+    apply R.bind_sat NoWrite
+    · exact R.sat_mono (pre_stores_nothing _ s (st0 s) hi (by simp [st0, NoWrite, AllEv, NotWrite]))
+        (by simp [always]) (by simp [always]) (by simp [always])
+    · intro st h
+      simpa using tailLate_stores_nothing s _ st h
+  have key : NoWrite (integrate ⟨true, p⟩ s).st := by
+    simp only [integrate] at h ⊢
+    generalize body ⟨true, p⟩ s (st0 s) = r at hb h ⊢
+    cases r with
+    | next st =>
+      simp only [] at h
+      split at h <;> simp at h
+    | ret c st => simpa using hb
+    | thr m st =>
+      simp only [R.sat_thr] at hb
+      simp_all [NoWrite, AllEv, NotWrite]
+  simp only [Result.written, List.filterMap_eq_nil_iff]
+  intro e he
+  have := key e he
+  cases e <;> simp_all [Event.isWrite, NotWrite]
+
 /-! ### the order shipped before the patch
 
 The same statement is **false** for `lateExport = false`: `shipped_order_failure_after_export` below exhibits
@@ -112,35 +76,6 @@ Full statement wanted (not provable for `lateExport = false`):
   theorem failed_integration_leaves_s1_untouched' (v : Variant) (s : Script α)
       (h : (integrate v s).ret = -1) : ∀ o ∈ (integrate v s).written, o.isS1 = false
 -/
-
-theorem tailEarly_exported (s : Script α) (ke : α) (st : St α) :
-    (stepExportState st).ev <+: (tailEarly s ke st).st.ev := by
-  unfold tailEarly
-  apply R.bind_prefix
-  · split
-    · exact stepExportTO_prefix s .k _
-    · simp
-  · intro st
-    apply R.bind_prefix _ _ _ (stepEnergyCompute_prefix _ _ _ _ st)
-    intro st
-    apply R.bind_prefix _ _ _ ((storeIf_prefix _ _ st).trans (stepEnergyCompute_prefix _ _ _ _ _))
-    intro st
-    split
-    · apply R.bind_prefix _ _ _ ((storeIf_prefix _ _ st).trans (stepSosCompute_prefix _ _ _))
-      intro st; simp [List.prefix_append]
-    · simpa using storeIf_prefix _ _ st
-
-theorem tailLate_next_exported (s : Script α) (ke : α) (st st' : St α) (h : tailLate s ke st = .next st') :
-    Event.exp ∈ st'.ev := by
-  unfold tailLate at h
-  obtain ⟨s1, _, h⟩ := R.bind_eq_next h
-  obtain ⟨s2, _, h⟩ := R.bind_eq_next h
-  obtain ⟨s3, _, h⟩ := R.bind_eq_next h
-  obtain ⟨s4, _, h⟩ := R.bind_eq_next h
-  injection h with h
-  subst h
-  have h0 : Event.exp ∈ (stepExportState s4).ev := by simp [stepExportState]
-  exact ((storeIf_prefix _ _ _).trans ((storeIf_prefix _ _ _).trans (storeIf_prefix _ _ _))).subset h0
 
 /-- **C40, shipped order, what is provable** — missing with respect to the full statement: the runs in
 which `exportStateData` was reached. Every call that fails before `b.exportStateData(d.s1)` (initialisation,
@@ -188,22 +123,6 @@ theorem failed_before_export_leaves_s1_untouched_partial (v : Variant) (s : Scri
     simp only [integrate, hb]
     simp only [always, R.sat_thr] at hpre
     simp_all [NoS1, AllEv, NotS1]
-
-/-- `pre` falls through: the call reaches `b.exportStateData(d.s1)` in the shipped order -/
-def reachesExport (s : Script α) : Prop :=
-  s.init = .ok ∧ ¬ cbRaises s ∧ isPrediction (effK0 s.k0) = false ∧
-  ¬ (s.traits.hasCTO = false ∧ integSmt (effK0 s.k0) ≠ .noStiffness) ∧ integrationOk s
-
-instance (s : Script α) : Decidable (reachesExport s) := by unfold reachesExport; infer_instance
-
-theorem pre_code_none_iff (v : Variant) (s : Script α) (st : St α) :
-    (pre v s st).code = none ↔ reachesExport s := by
-  rw [pre_code]
-  unfold reachesExport
-  by_cases h1 : s.init = .ok <;> by_cases h2 : cbRaises s <;>
-    by_cases h3 : isPrediction (effK0 s.k0) = true <;>
-    by_cases h4 : s.traits.hasCTO = false ∧ integSmt (effK0 s.k0) ≠ .noStiffness <;>
-    by_cases h5 : integrationOk s <;> by_cases h6 : predictionOk s <;> simp_all
 
 /-- **the defect of the shipped order, exactly**: with the state exported first, a call returns `-1` with
 `s1` already written if and only if everything up to the a posteriori time step factor succeeded and one
